@@ -109,9 +109,14 @@ def make_sed(pkg, n, unit='mJy'):
     sd = pkg['seds'][n]
     s.name = n
     s.distance = 1.0 * u.kpc
-    nu = np.array(_ord(pkg['nu'], sd['order']))
-    s.nu = nu * u.Hz
-    s.wav = s.nu.to(u.micron, equivalencies=u.spectral())
+    if 'wav' in pkg:     # wavelengths (micron, increasing) are primary; index k of 'wav' pairs with index n-1-k of the flux rows (which run along increasing nu)
+        wav = np.array(_ord(list(reversed(pkg['wav'])), sd['order']))
+        s.wav = wav * u.micron
+        s.nu = s.wav.to(u.Hz, equivalencies=u.spectral())
+    else:
+        nu = np.array(_ord(pkg['nu'], sd['order']))
+        s.nu = nu * u.Hz
+        s.wav = s.nu.to(u.micron, equivalencies=u.spectral())
     s.apertures = None if pkg['aps'] is None else np.array(pkg['aps']) * u.au
     s.flux = np.array([_ord(row, sd['order']) for row in sd['flux']]) * u.Unit(unit)
     s.error = np.array([_ord(row, sd['order']) for row in sd['err']]) * u.Unit(unit)
@@ -134,7 +139,10 @@ def make_cube(pkg, with_unc=True):
     c.names = np.array(pkg['par_order'])
     c.distance = 1.0 * u.kpc
     o = pkg['cube_order']
-    c.nu = np.array(_ord(pkg['nu'], o)) * u.Hz
+    if 'wav' in pkg:
+        c.wav = np.array(_ord(list(reversed(pkg['wav'])), o)) * u.micron
+    else:
+        c.nu = np.array(_ord(pkg['nu'], o)) * u.Hz
     c.apertures = None if pkg['aps'] is None else np.array(pkg['aps']) * u.au
     c.val = np.array([[_ord(row, o) for row in pkg['seds'][n]['flux']] for n in pkg['par_order']]) * u.mJy
     if with_unc:
